@@ -1,7 +1,7 @@
 (* C11 — every sentence of the CDCN grammar is accepted with its intended meaning.
    Statements only; the proofs are in LiteralProofs.v, ParserProofs.v, CdcnProofs.v, Grammar.v. *)
 From Coq Require Import String.
-From Verif Require Import Base Params Value Lexer Literals Parser LexerProofs ParserProofs CdcnProofs LiteralProofs ParseRun Grammar LexBridge LexBridge2.
+From Verif Require Import Base Params Value Lexer Literals Parser LexerProofs ParserProofs CdcnProofs LiteralProofs ParseRun Grammar Complete LexBridge LexBridge2.
 Close Scope string_scope.
 Open Scope Z_scope.
 
@@ -55,15 +55,36 @@ Proof. exact parse_int_range. Qed.
 Theorem C11_hexadecimal_range : forall text v, parse_hex text = Some v -> v < two64.
 Proof. exact parse_hex_range. Qed.
 
-(* parser_complete.  FULL STATEMENT (not proved in general):
-     forall fparse crank d v n, denote fparse crank d = Some v -> (d is a Collection) ->
-       parse_tokens fparse crank (render d ++ repeat EOLT n ++ [EOFT]) = PValue v
-   where [render] is the token sequence of a derivation tree of Syntax.cdsn and [denote] its
-   meaning (Grammar.v).  Proved: exhaustively for all derivations up to the size bound of
-   Grammar.level1 / level2 (3,906 + 2,598 derivation trees: every item-list form incl. both
-   empty forms, lengths 0..3, all seven contexts, nesting 2, repeated keys, literals without
-   exact value), each with 0..2 trailing EOL tokens — and conversely no derivation without
-   meaning among them is accepted.  Missing: the induction over arbitrary derivations. *)
+(* parser_complete, for ALL derivations (Complete.v).  [dcoll fparse crank ts v] is the
+   derivation relation of Syntax.cdsn at token level (Collection = "[" Items "]" "(" type ")";
+   Items = Values inline / multi-line / empty, Associations inline / multi-line / ":"; tokens
+   characterised by type and text, any line and position) together with the denoted value:
+   literals through literal_value, association lists de-duplicated by key (first position,
+   last value), the collection of the stated type through Parser.build.  The side conditions
+   are premises of the derivation: every literal converts and build succeeds (associations
+   under Catalog / Map, no collator panic while a Set is built).  Whatever follows the EOF
+   token, the sentence  Collection EOL* EOF  is accepted with that value. *)
+Theorem C11_parser_complete : forall fparse crank ts v eols eof tl,
+  dcoll fparse crank ts v -> Forall eolt eols -> ttype_of eof = TEOF ->
+  parse_tokens fparse crank (ts ++ eols ++ eof :: tl) = PValue v.
+Proof. exact parser_complete. Qed.
+Theorem C11_parser_complete_source : forall fparse crank src ts v eols eof,
+  lex src = ts ++ eols ++ [eof] -> dcoll fparse crank ts v -> Forall eolt eols -> ttype_of eof = TEOF ->
+  parse_source fparse crank src = PValue v.
+Proof. exact parser_complete_source. Qed.
+(* the engine of the proof: what every parse function does on a derivation, from any state
+   whose push-back stack holds at most 3 tokens (exact stream left over, push-back bound) *)
+Theorem C11_derivation_complete : forall fparse crank,
+  (forall ts v, dvalue fparse crank ts v -> Pv fparse crank ts v) /\ (forall ts v, dcoll fparse crank ts v -> Pc fparse crank ts v) /\
+  (forall ts items, ditems fparse crank ts items -> Pi fparse crank ts items) /\
+  (forall ts vs, dvtail_i fparse crank ts vs -> Pvi fparse crank ts vs) /\ (forall ts vs, dvtail_m fparse crank ts vs -> Pvm fparse crank ts vs) /\
+  (forall ts kv, dassoc fparse crank ts kv -> Pa fparse crank ts kv) /\
+  (forall ts kvs, datail_i fparse crank ts kvs -> Pai fparse crank ts kvs) /\ (forall ts kvs, datail_m fparse crank ts kvs -> Pam fparse crank ts kvs).
+Proof. exact derivation_complete. Qed.
+
+(* sanity check of the same statement on the independent tree formulation of Grammar.v
+   (render / denote as functions), exhaustively by computation up to a size bound, and the
+   converse there: no derivation tree without meaning is accepted *)
 Theorem C11_parser_complete_partial :
   forall d n, In d (level1 ++ level2) -> (n <= 2)%nat -> accepts no_floats (default_crank []) d n = true.
 Proof. exact parser_complete_partial. Qed.
@@ -155,6 +176,9 @@ Print Assumptions C11_integer_meaning_minus.
 Print Assumptions C11_hexadecimal_meaning.
 Print Assumptions C11_integer_range.
 Print Assumptions C11_hexadecimal_range.
+Print Assumptions C11_parser_complete.
+Print Assumptions C11_parser_complete_source.
+Print Assumptions C11_derivation_complete.
 Print Assumptions C11_parser_complete_partial.
 Print Assumptions C11_accepts_means.
 Print Assumptions C11_parser_sound_partial.
